@@ -304,6 +304,7 @@ func C11(c *Ctx) {
 	c.patternWitnessRule("C11-10")
 	c.lineSubjectRule("C11-11")
 	c.emptiedDocRule("C11-12")
+	c.keptLinesMoveRule("C11-13")
 
 	r.Rule("C11-6", "util.ExtractMatchComments visits every comment of the group (the loop has no exit other than exhaustion), appends every matching comment to the removed list and every non-matching one after the first match to the kept list")
 	if fn := c.MustFunc("C11-6", "/pkg/util", "ExtractMatchComments"); fn != nil {
@@ -317,7 +318,24 @@ func C11(c *Ctx) {
 				}
 			}
 		}
-		r.Check("C11-6", key+":one-loop", c.Pos(fn.Pos()), len(heads) == 1, sprintf("expected one scan loop, found %d", len(heads)))
+		// the scan loop is the one that tests the lines against the pattern (further loops – say, over the kept lines, to move
+		// them next to what follows the group – are not scans)
+		for h := range heads {
+			scans := false
+			if body := loopOf(h.Preds[len(h.Preds)-1]); body != nil {
+				for b := range body {
+					for _, in := range b.Instrs {
+						if ci, isCall := in.(ssa.CallInstruction); isCall && core.CalleeName(ci.Common()) == "(*regexp.Regexp).MatchString" {
+							scans = true
+						}
+					}
+				}
+			}
+			if !scans {
+				delete(heads, h)
+			}
+		}
+		r.Check("C11-6", key+":one-loop", c.Pos(fn.Pos()), len(heads) == 1, sprintf("expected one scan loop (a loop that tests the lines against the pattern), found %d", len(heads)))
 		for h := range heads {
 			body := loopOf(h.Preds[len(h.Preds)-1])
 			if body == nil {
